@@ -274,6 +274,9 @@ def replay(path):
     """Re-run a replay file: execute the program, validate with TLC, print the verdict."""
     with open(path) as f:
         body = json.load(f)
+    if body.get('kind') == 'repository-test':
+        from . import exttrace
+        return exttrace.replay(body, path)
     prog = body['program']
     prog['tid'] = 1
     prelude = [dict(p, tid=-(i + 1)) for i, p in enumerate(body.get('prelude', []))]
